@@ -172,15 +172,20 @@ type Host struct {
 	ids      map[lua.LValue]int
 	nextID   [4]int
 
-	Steps             int64 // verifStep calls (instruction boundaries) so far, all threads
-	Dispatches        int64
-	HostCalls         int64
-	MaxSteps          int64
-	Runaway           bool
-	Kind              int
-	At                int64 // step index (VRaise/VCancel) or host call index (host kinds)
-	Fired             bool
-	FiredStep         int64
+	Steps      int64 // verifStep calls (instruction boundaries) so far, all threads
+	Dispatches int64
+	HostCalls  int64
+	MaxSteps   int64
+	Runaway    bool
+	Kind       int
+	At         int64 // step index (VRaise/VCancel) or host call index (host kinds)
+	Fired      bool
+	FiredStep  int64
+	// Kind2/At2: a second fault, which fires only after the first one has (At2 is a step or host call index counted
+	// from the start of the run, like At)
+	Kind2             int
+	At2               int64
+	Fired2            bool
 	FiredDepth        int   // frame count over the running thread and its resume chain at the instant of firing
 	StepsAfter        int64 // verifStep calls after the fire (cancellation)
 	DispAfter         int64 // dispatches after the fire (cancellation)
@@ -373,6 +378,20 @@ func (h *Host) onStep(L *lua.LState) {
 	if h.ExtraStep != nil {
 		h.ExtraStep(L)
 	}
+	if h.Fired && !h.Fired2 && h.At2 > 0 && h.Steps == h.At2 && h.Steps > h.FiredStep {
+		switch h.Kind2 {
+		case VRaise:
+			h.Fired2 = true
+			L.RaiseError(model.FaultMarker)
+		case VCancel:
+			h.Fired2 = true
+			h.Kind = VCancel // from here on the run is a cancelled run
+			h.FiredDepth = lua.VerifChainDepth(L)
+			if h.Ctx != nil {
+				h.Ctx.Fire()
+			}
+		}
+	}
 	if !h.Fired && h.Steps == h.At {
 		switch h.Kind {
 		case VRaise:
@@ -412,7 +431,18 @@ func (h *Host) hostEnter(L *lua.LState) {
 	if !h.Fired && IsHostKind(h.Kind) && h.HostCalls == h.At {
 		h.Fired = true
 		h.FiredStep = h.Steps
-		switch h.Kind {
+		h.fireHost(L, h.Kind)
+	}
+	// the second fault of a two-fault run fires only after the first one has
+	if h.Fired && !h.Fired2 && IsHostKind(h.Kind2) && h.HostCalls == h.At2 {
+		h.Fired2 = true
+		h.fireHost(L, h.Kind2)
+	}
+}
+
+func (h *Host) fireHost(L *lua.LState, kind int) {
+	{
+		switch kind {
 		case VGoPanicString:
 			panic(model.FaultMarker + " go panic (string)")
 		case VGoPanicError:
@@ -474,7 +504,7 @@ func (h *Host) Render(v lua.LValue) string {
 		return model.FormatNumber(float64(x))
 	case lua.LString:
 		s := string(x)
-		if h.Kind == VGoPanicRuntime && strings.Contains(s, "invalid memory address or nil pointer dereference") {
+		if (h.Kind == VGoPanicRuntime || h.Kind2 == VGoPanicRuntime) && strings.Contains(s, "invalid memory address or nil pointer dereference") {
 			return "<fault>"
 		}
 		if strings.Contains(s, "error in error handling") {
